@@ -216,7 +216,7 @@ func (h hypWrap) RemoteTransfer(ctx context.Context, m *warptypes.MsgRemoteTrans
 		meta = "NONE"
 	}
 	h.i.reqs = append(h.i.reqs, Req{Route: "HYP", From: h.i.w.nameOfAddr(m.Sender), Amt: toInt(m.Amount, "hyp req"),
-		Denom: m.MaxFee.Denom, Dom: int64(m.DestinationDomain), Tok: h.i.w.nameOfBytes(m.TokenId.Bytes()),
+		Denom: "?", Dom: int64(m.DestinationDomain), Tok: h.i.w.nameOfBytes(m.TokenId.Bytes()),
 		Rcp: h.i.w.nameOfBytes(m.Recipient.Bytes()), Hook: hook, Gas: toInt(m.GasLimit, "gas"),
 		MaxFee: toInt(m.MaxFee.Amount, "maxfee"), Meta: meta, Mint: "NONE", Caller: "NONE", To: "NONE", Full: true})
 	if h.i.fail("hypTransfer") {
